@@ -101,6 +101,10 @@ def one_run(ctx, drv, cfg, chooser, mode, info, trace_socket_py=False):
     """Run cfg on the implementation, compare with the model step by step, apply the oracle.
     Returns (run, canonical outcome, model answer, problems)."""
     r = hc.run_impl(cfg, chooser, mode=mode, trace_socket_py=trace_socket_py)
+    if r.harness_errors:
+        # the harness itself failed on this run: no verdict from it (never a property violation)
+        HERR.append((r.harness_errors[0], dict(cfg=cfg, info=info)))
+        return r, None, None, [], None
     ci = hc.canon_impl(r, cfg)
     sched = r.access_schedule()
     m = drv.run(sched)
@@ -125,6 +129,9 @@ def replay_entry(ctx, drv, rec, info):
     drv.set_cfg(cfg)
     ch = hs.list_chooser(rec["schedule"], then_round_robin=rec.get("then_round_robin", True))
     return one_run(ctx, drv, cfg, ch, rec.get("mode", "access"), info)
+
+
+HERR = []        # (message, where) for runs the harness could not drive
 
 
 class Deadline(Exception):
@@ -204,6 +211,9 @@ def run(ctx):
     xsample = []
 
     def account(family, cfg, r, ci, m, probs, rep):
+        if ci is None:
+            cov["harness_failed_runs"] = cov.get("harness_failed_runs", 0) + 1
+            return
         cov["runs"] += 1
         cov["families"][family] = cov["families"].get(family, 0) + 1
         if "blocked" in r.status:
@@ -276,6 +286,10 @@ def run(ctx):
             info["family"] = family
             r, ci, m, probs, rep = one_run(ctx, drv, cfg, ch, "line", info, trace_socket_py=tsp)
             account(family, cfg, r, ci, m, probs, rep)
+            if ci is None:
+                if len(HERR) > 25:
+                    break
+                continue
             seen_outcomes.add(hc.okey(ci))
             if oset is not None:
                 cov["inclusion_checked"] += 1
@@ -296,6 +310,8 @@ def run(ctx):
                 r, ci, m, probs, rep = one_run(ctx, drv, cfg, hs.list_chooser(wsched, then_round_robin=False),
                                                "access", dict(family=family, chooser="model-witness"))
                 account(family, cfg, r, ci, m, probs, rep)
+                if ci is None:
+                    continue
                 if ci == o:
                     cov["model_outcomes_reproduced"] += 1
                 else:
@@ -326,6 +342,9 @@ def run(ctx):
                 d = rng.randint(2, 5)
                 ch, info = hs.pct_chooser(rng, len(cfg), d, 40 * len(cfg)), dict(chooser="pct", depth=d)
             r = hc.run_impl_bc(cfg, ch)
+            if r.harness_errors:
+                HERR.append((r.harness_errors[0], dict(kind="bcast", cfg=cfg, info=info)))
+                continue
             cov["bcast_runs"] += 1
             # step-level correspondence with Net/Bcast.v (one endpoint owning several sockets)
             bm = hc.brun_model(drv, cfg, r.access_schedule())
@@ -390,6 +409,13 @@ def run(ctx):
         ctx.gen_obligation("OCaml-extracted model agrees with vm_compute on the sampled schedules", okc == len(files))
         cov["coq_crosscheck_schedules"] = len(xsample)
 
+    # ---- the harness could not drive the hub on some runs: a broken obligation, and the free-running oracle-only
+    # stream decides whether the property itself fails on this tree
+    if HERR:
+        ctx.broken.append(f"harness could not drive the hub on {len(HERR)} runs (no verdict from them); first: {HERR[0][0][:300]}")
+        cov["harness_errors"] = len(HERR)
+        if not ctx.violations:
+            free_stream(ctx, 40 if quick else 120)
     # ---- verdict on the correspondence
     if mism:
         p, rep = mism[0]
@@ -408,6 +434,9 @@ def run(ctx):
 def replay_bcast(ctx, rec, info):
     cfg = rec["cfg"]
     r = hc.run_impl_bc(cfg, hs.list_chooser(rec["schedule"], then_round_robin=rec.get("then_round_robin", True)))
+    if r.harness_errors:
+        HERR.append((r.harness_errors[0], dict(kind="bcast", cfg=cfg, info=info)))
+        return r, []
     bad = hc.oracle_bcast(r, cfg)
     if bad:
         ctx.violation(f"{bad[0][0]}: {bad[0][1]}",
@@ -415,6 +444,47 @@ def replay_bcast(ctx, rec, info):
                            results=[[list(z[:2]) for z in rr] for rr in r.results], status=r.status,
                            oracle=[list(b) for b in bad], info=info), key=None)
     return r, bad
+
+
+def free_stream(ctx, budget):
+    """oracle-only: real threads on a real hub, no scheduler; returns True when a failing input was found"""
+    rng = ctx.rng
+    t0 = time.time()
+    n = 0
+    while time.time() - t0 < budget:
+        fam, cfg = hc.gen_cfg(rng)
+        if any(th["cb"] and any(o[0] in ("recv", "recvnb") for o in th["ops"]) for th in cfg):
+            continue
+        for _ in range(3):
+            fr = hc.free_run(cfg, rng)
+            n += 1
+            bad = hc.oracle_free(fr, cfg)
+            if bad:
+                ctx.violation(f"{bad[0][0]}: {bad[0][1]} (free-running threads)",
+                              dict(kind="free", cfg=cfg, payloads={str(m): hc.pay(m) for m in range(1, 13)},
+                                   results=[[list(z[:2]) for z in rr] for rr in fr["results"]], storage=fr["storage"],
+                                   queues={str(k): v for k, v in (fr["queues"] or {}).items()},
+                                   oracle=[list(b) for b in bad], info=dict(family=fam)))
+                ctx.coverage["free_runs"] = n
+                return True
+    ctx.coverage["free_runs"] = n
+    return False
+
+
+# configurations aimed at blocking / wake-up defects: several receivers waiting at the same time (on different
+# sockets and on one socket), bursts queued before the receives, receive-before-send on both sides
+PROBES = [
+    [dict(key=[0, 1, 0], cb=False, ops=[["connect"], ["send", 1]]), dict(key=[1, 0, 0], cb=False, ops=[["connect"], ["recv"]]),
+     dict(key=[0, 1, 1], cb=False, ops=[["connect"], ["send", 3]]), dict(key=[1, 0, 1], cb=False, ops=[["connect"], ["recv"]])],
+    [dict(key=[0, 1, 0], cb=False, ops=[["connect"], ["send", 1], ["send", 3], ["send", 5]]),
+     dict(key=[1, 0, 0], cb=False, ops=[["connect"], ["recv"], ["recv"], ["recv"]])],
+    [dict(key=[0, 1, 0], cb=False, ops=[["connect"], ["recv"], ["send", 1]]),
+     dict(key=[1, 0, 0], cb=False, ops=[["connect"], ["send", 3], ["recv"]])],
+    [dict(key=[0, 1, 0], cb=False, ops=[["connect"], ["send", 1], ["send", 3]]),
+     dict(key=[1, 0, 0], cb=False, ops=[["connect"], ["recv"]]), dict(key=[1, 0, 0], cb=False, ops=[["connect"], ["recv"]])],
+    [dict(key=[0, 1, 0], cb=False, ops=[["connect"], ["send", 1]]), dict(key=[1, 0, 0], cb=False, ops=[["connect"], ["recv"]]),
+     dict(key=[2, 1, 0], cb=False, ops=[["connect"], ["send", 3]]), dict(key=[1, 2, 0], cb=False, ops=[["connect"], ["recv"]])],
+]
 
 
 def search(ctx, drv, reps):
@@ -448,6 +518,29 @@ def search(ctx, drv, reps):
                 ctx.violation(f"{bad[0][0]}: {bad[0][1]}",
                               dict(cfg=cfg, mode="access", schedule=r.access_schedule(), impl_accesses=r.labels(),
                                    impl_outcome=hc.canon_impl(r, cfg), oracle=[list(b) for b in bad], info=dict(search=True)))
+                return True
+    # nothing on the differing configurations: probe configurations, then freshly generated ones, oracle only
+    t_probe = time.time()
+    budget = 45
+    gen = (cfg for cfg in PROBES)
+    while time.time() - t_probe < budget and not too_many_leaks(ctx):
+        cfg = next(gen, None)
+        if cfg is None:
+            cfg = hc.gen_cfg(rng)[1]
+        for i in range(40):
+            if time.time() - t_probe > budget:
+                break
+            ch = hs.random_chooser(rng, rng.choice([0.05, 0.3, 0.7])) if i % 2 else hs.pct_chooser(rng, len(cfg), rng.randint(2, 5), 120)
+            r = hc.run_impl(cfg, ch, mode="line")
+            if r.harness_errors:
+                break
+            bad = hc.oracle(r, cfg)
+            if bad:
+                ctx.violation(f"{bad[0][0]}: {bad[0][1]}",
+                              dict(cfg=cfg, mode="access", schedule=r.access_schedule(), line_schedule=r.line_sched,
+                                   impl_accesses=r.labels(), impl_outcome=hc.canon_impl(r, cfg),
+                                   payloads={str(m): hc.pay(m) for m in range(1, 13)},
+                                   oracle=[list(b) for b in bad], info=dict(search="probe")))
                 return True
     return False
 
